@@ -126,6 +126,18 @@ CHECKS = {
         "(bytes still in flight at hand-off cannot be told from an answer by any client); histories are sequential.",
         "5/C06",
     ),
+    "C07": (
+        "exploration",
+        "systematic schedule enumeration by re-execution + Hypothesis-sampled schedules: external events (start, connect "
+        "ok/fail, release/close, cancel, connector.close) delivered with full / partial (k loop iterations) / no settling "
+        "against a harness-side counting model on the deterministic loop",
+        "All event orders up to a length bound for small (N, H, limit, limit_per_host) configurations - including one "
+        "event per schedule landing between two callbacks of the same cascade - and sampled longer ones are run against "
+        "a real BaseConnector; limits, lost wake-ups, leaked slots and close() behaviour are checked after every event.",
+        "Trusts the harness counting model and vlib/detloop.py; interleavings are asyncio's FIFO order with generated "
+        "external-event placement, not arbitrary callback permutations.",
+        "5/C07",
+    ),
 }
 
 REASON_PENDING = "check not built yet in this round (design in DESIGN.md section 5); not claimed until it runs quietly on the unchanged tree"
